@@ -41,7 +41,7 @@ EVENT_ACTIONS = {"call_begin": ["Begin", "ReadConst"], "cl": ["ClAtomic"], "call
                  "build_rt": ["BuildRt"], "drop_rt": ["DropRt"], "compile_begin": ["CompAcq", "CompRead", "CompUpd"],
                  "compile_end": ["CompRel"], "get": ["Get"], "spawn": ["Spawn"], "drop_pkg": ["DropPkg"],
                  "drop_handles": ["DropHandles"], "join": ["Join"], "quiesce": ["Quiesce"]}
-SHAPES = ["arith", "slen", "lsum", "bump", "bump2", "ktag", "keep"]
+SHAPES = ["arith", "slen", "lsum", "bump", "bump2", "ktag", "wide", "keep"]
 RUN_SAMPLES = []
 CLASS = {(True, True): "ss", (True, False): "sn", (False, True): "ns", (False, False): "nn"}
 
@@ -554,7 +554,7 @@ def run(tier):
     ev.assumptions = [
         "the design model is exhaustive for the listed thread programs only; real runs sample schedules (the OS scheduler "
         "chooses), they do not enumerate them",
-        "seven function shapes stand for generated scripts (integer arithmetic on arguments and constants, strings and lists "
+        "eight function shapes stand for generated scripts (integer arithmetic on arguments and constants, strings and lists "
         "built and dropped inside the call, one or two calls of a registered closure, tracked host values passed, returned and "
         "read from constants)",
         "a data race in generated machine code that never changes a result, a counter or crashes the worker is not observable; "
